@@ -234,11 +234,12 @@ def r4(idx, rep):
     for s in K.attr_stores(idx, set(flags)):
         fi, v = s["fi"], s["value"]
         setter = f"CsvPaths.{s['target'].attr[1:]}"
-        if fi.qual == setter:
+        if K.owner_of(idx, fi, {setter}) is not None:
             okv = (K.is_const(v, True) if flags[s["target"].attr] else isinstance(v, ast.Name))
             rep.check(okv, "R4", f"{fi.file}::{fi.qual} sets {s['target'].attr}", f"stores {unparse(v)}", K.where(fi, s["stmt"]))
         else:
-            okr = fi.qual in resets and (K.is_const(v, False) or K.is_const(v, 0))
-            if fi.qual == "CsvPaths.next_by_line":
+            own = K.owner_of(idx, fi, resets)
+            okr = own is not None and (K.is_const(v, False) or K.is_const(v, 0))
+            if own == "CsvPaths.next_by_line":
                 okr = okr and s["target"].attr in ("_skip_all", "_advance_all")
             rep.check(okr, "R4", f"{fi.file}::{fi.qual} resets {s['target'].attr}", f"`{unparse(s['stmt'])}`: the signal flags may only be raised by their setters and cleared by the run resets", K.where(fi, s["stmt"]))
